@@ -10,3 +10,5 @@ import BalmProofs.Props.C12
 #print axioms Balm.Impl.symbolicSeeds_checked
 #print axioms Balm.Impl.nodeSeeds_checked
 #print axioms Balm.Impl.symHypB_spec
+#print axioms Balm.Impl.fallback_eq_own
+#print axioms Balm.Impl.mem_fallbackRegion
